@@ -26,6 +26,7 @@ Definition res_eqb (a b : res) : bool :=
   | RNoNode x, RNoNode y => N.eqb x y
   | RNoEdge x, RNoEdge y => N.eqb x y
   | RErr, RErr => true
+  | RIds x, RIds y => lN_eqb x y
   | _, _ => false
   end.
 
@@ -114,10 +115,19 @@ Fixpoint delete_node_race (before after : list (list (op * res))) : bool :=
       existsb (fun n => existsb (fun t' => existsb (fun p => names_endpoint n (fst p)) t') (before ++ rest)) (deleted_nodes t)
       || delete_node_race (before ++ [t]) rest
   end.
+(* every edge id handed out to a thread is unique and was not in use before the threads started *)
+Definition created_ids (threads : list (list (op * res))) : list N :=
+  flat_map (fun p => match p with (CreateEdgeId e _ _ _, RId _) => [e] | _ => [] end) (concat threads).
+Fixpoint nodupb (l : list N) : bool :=
+  match l with [] => true | x :: r => negb (mem x r) && nodupb r end.
+Definition ids_unique (s0 : store) (threads : list (list (op * res))) : bool :=
+  nodupb (created_ids threads)
+  && forallb (fun e => match get_edge s0 e with Some _ => false | None => true end) (created_ids threads).
 Definition conc_case := (N * list op * list (list (op * res)) * obs)%type.
 Definition check_conc (c : conc_case) : N :=
   let '(mode, setup, threads, ob) := c in
-  if negb (consistent_obs ob) then
+  if negb (ids_unique (run empty setup) threads) then V_VIOLATION
+  else if negb (consistent_obs ob) then
     (if N.eqb mode 1 && delete_node_race [] threads then V_KNOWN 0 else V_VIOLATION)
   else if N.eqb mode 0 then
     let s := run (run empty setup) (map fst (concat threads)) in
@@ -131,4 +141,5 @@ Definition check_conc (c : conc_case) : N :=
 Definition mixed_case := (list op * list (list (op * res)) * list op * list (res * obs))%type.
 Definition check_mixed (c : mixed_case) : N :=
   let '(setup, threads, tail, os) := c in
-  seq_walk (run (run empty setup) (map fst (concat threads))) tail os.
+  if negb (ids_unique (run empty setup) threads) then V_VIOLATION
+  else seq_walk (run (run empty setup) (map fst (concat threads))) tail os.
